@@ -126,5 +126,5 @@ def replay(key, model, info):
             good = M.isolated_impl(list(lists[0]), list(lists[1]))
         except Exception as ex:  # noqa: BLE001
             return True, f'schedule {lists} raises {type(ex).__name__}: {ex}'
-        return (not good), f'schedule {lists[0]} events {lists[1]}: {"isolated" if good else "a task observes the other task\'s configuration"}'
+        return (not good), f'schedule {lists[0]} events {lists[1]}: {"isolated" if good else "a task observes the configuration of the other task"}'
     return False, 'counterexample arguments could not be parsed'
